@@ -7,33 +7,50 @@ caller (`harness/kernels.py`) then writes a stub in place of the def so that the
 theorem no longer type-checks (a refusal is never a silent skip).
 
 Floats are treated as exact rationals/reals (the hand-written models do the same): a float literal is
-the exact decimal it is written as, `float(x)` is the identity, `np.sqrt/cos/sin/pi` are the abstract
-fields of the `Scalar` class of `Model/GainCalc.lean`.
+the exact decimal it is written as (or, per kernel, the exact binary64 value, for models that do that),
+`float(x)` is the identity, `np.sqrt/cos/sin/tan/arctan/arctan2/pi/...` are the abstract fields of the
+`Scalar` class of the model the kernel is tied to (`SCALARS` below).
 
 Whitelist (see `_Tr`):
-  statements  docstring; `x = e`, `x = y = e`, `x op= e` (a later assignment shadows: Lean `let`);
+  statements  docstring; `x = e`, `x = y = e`, `a, b = e1, e2`, `x op= e` (a later assignment shadows:
+              Lean `let`); assignment to a *mapped* attribute (`bf.duration -= shift`: the mapped
+              expression denotes the new value from then on) or to a designated optional;
               `v[v <cmp> c] = c'` on an array parameter (element-wise clip); `if/elif/else`
               (statements after an `if` are duplicated into both branches, so early `return`s and
-              branch-wise assignments need no join); `return e` / `return e1, e2`; `raise` (only where
-              the kernel declares an error alternative); `pass`; calls listed as no-ops
-              (`warnings.warn`); calls listed as *effects* whose argument is the result
-              (`self._buffer.seek(x)`).
-  expressions parameters and locals; mapped attribute/call/subscript expressions (per-kernel map keyed
-              by the source text after expanding local object aliases); int/float/bool literals;
-              `+ - * /`, `//` on ints (`Int.fdiv`, Python's floor division), unary `-`/`+`, `** 2`,
-              `<int literal> ** <int expression>`; comparisons incl. chains; `and/or/not`;
-              `is None` / `is not None` on designated optionals (decided by a `match` hoisted to the
-              top of the def; the body is partially evaluated per case, so `x is None or x.a == 0`
-              short-circuits as in Python); conditional expressions; tuples; `min/max/abs`;
-              `np.sqrt/math.sqrt`, `np.cos/np.sin`, `np.pi/math.pi`; `math.ceil/np.ceil`,
+              branch-wise assignments need no join); `while c: <assignments>` with a per-kernel fuel
+              (an auxiliary structurally recursive def; when the fuel runs out the current values are
+              returned); `return e` / `return e1, e2`; `raise` (only where the kernel declares an
+              error alternative); `assert` of a test that is constant-true on the kernel's domain;
+              `pass`; calls listed as no-ops (`warnings.warn`); calls listed as *effects*: the
+              argument is the result (`self._buffer.seek(x)`), or a mapped state expression is updated
+              (`self._buffer.seek(n, 1)` moves what `self._buffer.tell()` denotes).
+  expressions parameters and locals; mapped expressions (per-kernel map keyed by the source text after
+              expanding local object aliases); int/float/bool literals; `+ - * /`, `//` and `%`
+              (`Int.fdiv`/`Int.fmod`, Python's floor semantics; plain `/` `%` on naturals), `divmod`,
+              `& | << >>` on naturals, unary `-`/`+`, `** 2`, `<int literal> ** <int expression>`,
+              `0.5 ** x` where the scalar class has `powHalf`; comparisons incl. chains; `and/or/not`;
+              truth value of an integer (`!= 0`), `bool()`; `is None` / `is not None` on designated
+              optionals (decided by a `match` hoisted to the top of the def; the body is partially
+              evaluated per case, so `x is None or x.a == 0` short-circuits as in Python);
+              conditional expressions; tuples; `min/max/abs`, `np.abs/np.sign/np.clip/np.hypot`;
+              `np.sqrt/cos/sin/tan/arctan/arctan2/arcsin/arccos` and the `math.` equivalents,
+              `np.power`, `np.pi`, `np.radians/np.degrees` (numpy's definitions `x*(pi/180)`,
+              `x*(180/pi)`), `np.interp(x, [..], [..])` (the model's `interp`); `math.ceil/np.ceil`,
               `math.trunc`, `int()` of an integer, `float()`, `Fraction(<int>)`; array parameters
               combined with scalars (`a * s`, `s + a`, `a > s`), `np.array(a)`, `np.array([])`,
-              `np.arange(n)`, `np.any(a > s)`; constructor calls listed per kernel
-              (`slice(a, b)` -> pair).
+              `np.arange(n)`, `np.any(a > s)`; constructor calls listed per kernel (`slice(a, b)` ->
+              pair); calls of same-module helper functions listed per kernel (inlined: the helper must
+              be `asserts; return <expr>`).
+  selection   the whole function; or `targets`: "the assignments to names X, Y, Z" (+ the branch
+              condition as a guard); or `value_of`: the expression of one statement (right-hand side,
+              `if` test, returned value); or `range`: the statements from one statement to another of
+              the same block, with designated outputs.  Statements are designated by the beginning of
+              their (ast-normalised) source text and must be unique in the function.
 """
 import ast
 import copy
 import hashlib
+import re
 from fractions import Fraction
 
 
@@ -55,12 +72,24 @@ def mangle(name):
 
 
 NUM = ("lit", "nat", "int", "rat", "alpha")
+LEAN_TYPE = {"nat": "Nat", "int": "Int", "rat": "Rat", "alpha": "α", "bool": "Bool"}
+
+# the scalar classes of the models a kernel can be written over: Lean class, abstract fields, IEEE `==`
+SCALARS = {
+    "GainCalc": dict(cls="Earverif.GainCalc.Scalar", eq="Earverif.GainCalc.eqS",
+                     fields={"sqrt", "cos", "sin", "pi", "pow", "atan2"}, interp="Earverif.GainCalc.interp"),
+    "Conv": dict(cls="Earverif.Conv.Scalar", eq=None,
+                 fields={"pi", "sqrt", "tan", "atan", "atan2", "sin", "cos", "asin", "acos"}, interp=None),
+    "PointSource": dict(cls="Earverif.PointSource.Scalar", eq=None, fields={"sqrt", "max", "min", "powHalf"},
+                        interp=None),
+}
+SCALARS["alpha"] = SCALARS["GainCalc"]
 
 
 class Val:
     """A translated expression.  kind: lit (exact constant, `q`), nat/int/rat/alpha (numeric, Lean text),
     bool (Lean Bool), prop (Lean Prop), vec (array: `src.map fun var => body`), tuple, list0 (`[]`),
-    or a per-kernel opaque tag.  `const` = known truth value (partial evaluation)."""
+    opt (Lean Option, outputs only) or a per-kernel opaque tag.  `const` = known truth value."""
 
     def __init__(self, lean, kind, q=None, isfloat=False, const=None, src=None, var=None, body=None, items=None):
         self.lean, self.kind, self.q, self.isfloat, self.const = lean, kind, q, isfloat, const
@@ -90,27 +119,37 @@ class KernelSpec:
     file, qualname   source location (`Class.method` for methods)
     lean_name        name of the generated def
     binders, ret     Lean signature text
-    scalar           'rat' (literals are Rat/Int numerals) or 'alpha' (`Scalar α`: literals `Scalar.ofRat q`)
-    names            {python name: (lean, kind)} for parameters used as plain names
-    exprs            {source text: (lean, kind)} for attribute / call / subscript expressions
+    scalar           'rat' (literals are Rat/Int numerals) or a key of SCALARS ('alpha' = 'GainCalc'):
+                     written over `α` with that model's Scalar class, literals `Scalar.ofRat q`
+    names            {python name: (lean, kind)} for parameters/inputs used as plain names
+    exprs            {source text: (lean, kind)} for mapped expressions; kind 'true'/'false' = a constant
+                     on this kernel's domain
     optionals        [Optional_]
-    effects          {source text of a called function: 'result'}: `f(x)` as a statement yields the result `x`
+    effects          {source text of a called function: 'result' | dict(state=<mapped source text>,
+                     forms={(nargs,) or (nargs, <int literal 2nd arg>): 'arg' | 'old+arg' | ('expr+arg', lean, kind)})}
     ctors            {(name, arity) or name: template}; template = str with {0},{1}.. or list of keyword names
+    inline           {called name: qualname of a function of the same file} (expression helpers)
     ret_mode         'plain' | 'option' (values are `some v`, `raise` is `none`)
     ret_wrap         {kind: template} applied to returned values (e.g. {'rat': '(Ext.fin {})'})
-    select           None = whole function; else dict(targets=[names or 'return'], guard=bool):
-                     translate only the assignments to the given names (and what they depend on);
-                     with guard=True the result is `Option`, `none` when the path is not taken;
-                     optional `inputs=[names]`: locals taken as given at the slice point
+    select           None = whole function; or dict with one of
+                       targets=[names or 'return'], guard=bool, inputs=[names]
+                       value_of=<statement prefix> [, arg_of=<called name>: the first argument of that call]
+                       range=(<first statement prefix>, <stop statement prefix or None>)
+    outputs          [source texts]: what a path that falls off the end returns (names, mapped expressions,
+                     optionals); needed for `range` and for functions that work by assignment
+    fuel             Lean term (or list of terms, one per `while`, may mention locals) bounding loops
+    float_literals   'decimal' (a literal is the decimal written) | 'binary64' (its exact double value)
     """
 
     def __init__(self, file, qualname, lean_name, binders, ret, scalar="rat", names=None, exprs=None, optionals=(),
-                 effects=None, ctors=None, ret_mode="plain", ret_wrap=None, select=None, notes=""):
+                 effects=None, ctors=None, inline=None, ret_mode="plain", ret_wrap=None, select=None, outputs=None,
+                 fuel=None, float_literals="decimal", notes=""):
         self.file, self.qualname, self.lean_name = file, qualname, lean_name
         self.binders, self.ret, self.scalar = binders, ret, scalar
         self.names, self.exprs, self.optionals = dict(names or {}), dict(exprs or {}), list(optionals)
-        self.effects, self.ctors = dict(effects or {}), dict(ctors or {})
+        self.effects, self.ctors, self.inline = dict(effects or {}), dict(ctors or {}), dict(inline or {})
         self.ret_mode, self.ret_wrap, self.select, self.notes = ret_mode, dict(ret_wrap or {}), select, notes
+        self.outputs, self.fuel, self.float_literals = outputs, fuel, float_literals
 
 
 NOOP_CALLS = {"warnings.warn"}
@@ -136,22 +175,18 @@ def find_function(tree, qualname):
 
 
 def function_source(path, qualname):
-    """(FunctionDef node, source text of the function incl. decorators, sha256 of that text)."""
+    """(FunctionDef node, source text of the function incl. decorators, sha256 of that text, module tree)."""
     src = open(path, encoding="utf-8").read()
     tree = ast.parse(src)
     fn = find_function(tree, qualname)
     lines = src.split("\n")
     first = min([fn.lineno] + [d.lineno for d in fn.decorator_list])
     text = "\n".join(lines[first - 1:fn.end_lineno]) + "\n"
-    return fn, text, hashlib.sha256(text.encode("utf-8")).hexdigest()
+    return fn, text, hashlib.sha256(text.encode("utf-8")).hexdigest(), tree
 
 
 # --------------------------------------------------------------------------------------
-# slicing: "the assignments to names X, Y, Z inside a function"
-
-
-class _NotReached:
-    pass
+# selection
 
 
 def _assigned_names(stmt):
@@ -201,7 +236,7 @@ def _find_block(body, targets, path):
 
 
 def slice_function(fn, select):
-    """Synthetic statement list computing the selected names (see KernelSpec.select).  `inputs` are names
+    """Synthetic statement list computing the selected names (select['targets']).  `inputs` are names
     taken as given at the slice point (their earlier assignments are outside the slice)."""
     targets = list(select["targets"])
     stop_names = set(select.get("inputs", ()))
@@ -269,14 +304,75 @@ def slice_function(fn, select):
     return built
 
 
+def _blocks(body):
+    """every statement list of a function body (descending into compound statements, not into nested defs)"""
+    yield body
+    for s in body:
+        for fld in ("body", "orelse", "finalbody"):
+            sub = getattr(s, fld, None)
+            if isinstance(sub, list) and sub and isinstance(sub[0], ast.stmt) \
+                    and not isinstance(s, (ast.FunctionDef, ast.ClassDef, ast.AsyncFunctionDef)):
+                yield from _blocks(sub)
+        for h in getattr(s, "handlers", []) or []:
+            yield from _blocks(h.body)
+
+
+def find_statement(fn, prefix):
+    """(block, index) of the unique statement whose ast-normalised source text starts with `prefix`
+    (`re:<regex>`: matches the regex at its start)."""
+    hits = []
+    for blk in _blocks(fn.body):
+        for i, s in enumerate(blk):
+            text = ast.unparse(s)
+            if (re.match(prefix[3:], text) if prefix.startswith("re:") else text.startswith(prefix)):
+                hits.append((blk, i))
+    if len(hits) != 1:
+        raise Refuse("%d statements of `%s` start with %r (need exactly 1)" % (len(hits), fn.name, prefix))
+    return hits[0]
+
+
+def select_value_of(fn, prefix, arg_of=None):
+    blk, i = find_statement(fn, prefix)
+    s = blk[i]
+    if arg_of is not None:
+        calls = [n for n in ast.walk(s) if isinstance(n, ast.Call) and ast.unparse(n.func) == arg_of and n.args]
+        if len(calls) != 1:
+            raise Refuse("value_of %r: %d calls of `%s` in the statement (need exactly 1)" % (prefix, len(calls), arg_of))
+        v = calls[0].args[0]
+    elif isinstance(s, (ast.Assign, ast.AugAssign, ast.Return)) and s.value is not None:
+        v = s.value
+    elif isinstance(s, (ast.If, ast.While)):
+        v = ast.Call(func=ast.Name(id="bool", ctx=ast.Load()), args=[s.test], keywords=[])
+    elif isinstance(s, ast.Expr) and isinstance(s.value, ast.Call) and len(s.value.args) >= 1:
+        v = s.value.args[0]
+    else:
+        raise Refuse("value_of %r: statement of type %s has no designated expression" % (prefix, type(s).__name__))
+    r = ast.Return(value=v)
+    ast.copy_location(r, s)
+    ast.fix_missing_locations(r)
+    return [r]
+
+
+def select_range(fn, start, stop):
+    blk, i = find_statement(fn, start)
+    j = len(blk)
+    if stop is not None:
+        blk2, j2 = find_statement(fn, stop)
+        if blk2 is not blk or j2 <= i:
+            raise Refuse("range (%r, %r): the stop statement is not later in the same block" % (start, stop))
+        j = j2
+    return list(blk[i:j])
+
+
 # --------------------------------------------------------------------------------------
 # the translator proper
 
 
 class _Env:
     def __init__(self, spec):
-        self.names = dict(spec.names)  # python name -> Val
+        self.names = dict(spec.names)  # python name -> Val or (lean, kind)
         self.exprs = dict(spec.exprs)
+        self.over = {}  # mapped source text -> Val: value after an assignment/effect on this path
         self.aliases = {}  # local name -> ast expr (object alias)
         self.none = {}  # optional source text -> True (is None) / False
         self.fresh = [0]
@@ -285,16 +381,25 @@ class _Env:
         e = copy.copy(self)
         e.names = dict(self.names)
         e.exprs = dict(self.exprs)
+        e.over = dict(self.over)
         e.aliases = dict(self.aliases)
         e.none = dict(self.none)
         return e
 
 
 class _Tr:
-    def __init__(self, spec):
+    def __init__(self, spec, tree=None, src_text=None):
         self.spec = spec
-        self.alpha = spec.scalar == "alpha"
+        self.alpha = spec.scalar != "rat"
+        if self.alpha and spec.scalar not in SCALARS:
+            raise Refuse("unknown scalar class %r" % spec.scalar)
+        self.sc = SCALARS[spec.scalar] if self.alpha else None
+        self.S = self.sc["cls"] if self.alpha else None
         self.opt = {o.py: o for o in spec.optionals}
+        self.tree, self.src_text = tree, src_text
+        self.aux = []  # auxiliary defs (while loops)
+        self.nloops = 0
+        self.outputs = spec.outputs
 
     # ---- helpers
 
@@ -323,6 +428,20 @@ class _Tr:
         keys = list(env.exprs) + list(self.opt) + [k for o in self.spec.optionals for k in o.payload]
         return any(k.startswith(text + ".") or k.startswith(text + "[") for k in keys)
 
+    def field(self, name, node):
+        if not self.alpha:
+            self.bad(node, "`%s` needs a Scalar kernel (abstract function)" % name)
+        if name not in self.sc["fields"]:
+            self.bad(node, "the scalar class %s of the target model has no `%s`" % (self.S, name))
+        return "%s.%s" % (self.S, name)
+
+    def ofrat(self, q):
+        a = abs(q)
+        s = "%d" % a.numerator if a.denominator == 1 else "(%d / %d)" % (a.numerator, a.denominator)
+        if q < 0:
+            s = "(-%s)" % s
+        return "(%s.ofRat %s : α)" % (self.S, s)
+
     def num(self, v, kind, node=None):
         """Lean text of numeric value `v` used at numeric kind `kind` (nat/int/rat/alpha)."""
         if v.kind == "lit":
@@ -330,13 +449,19 @@ class _Tr:
             neg = q < 0
             a = abs(q)
             if kind == "alpha":
-                s = "%d" % a.numerator if a.denominator == 1 else "(%d / %d)" % (a.numerator, a.denominator)
-                s = "(Scalar.ofRat %s : α)" % s
+                s = self.ofrat(a)
             elif kind == "rat":
-                s = "(%d : Rat)" % a.numerator if a.denominator == 1 else "((%d : Rat) / %d)" % (a.numerator, a.denominator)
+                if a.denominator == 1:
+                    s = "(%d : Rat)" % a.numerator
+                elif self.spec.float_literals == "binary64":
+                    s = "(mkRat %d %d)" % (a.numerator, a.denominator)
+                else:
+                    s = "((%d : Rat) / %d)" % (a.numerator, a.denominator)
             elif kind in ("int", "nat"):
                 if a.denominator != 1 or v.isfloat:
                     self.bad(node, "non-integer literal in integer arithmetic")
+                if kind == "nat" and neg:
+                    self.bad(node, "negative literal as a natural number")
                 s = "(%d : %s)" % (a.numerator, "Int" if kind == "int" else "Nat")
             else:
                 self.bad(node, "literal used as %s" % kind)
@@ -352,7 +477,7 @@ class _Tr:
             return "(Int.cast %s : Rat)" % v.lean
         self.bad(node, "cannot use a %s value as %s" % (v.kind, kind))
 
-    def join(self, a, b, node, arith=True):
+    def join(self, a, b, node, op="cmp"):
         """numeric kind of a binary operation on a and b"""
         ka, kb = a.kind, b.kind
         for k in (ka, kb):
@@ -372,7 +497,7 @@ class _Tr:
             if self.alpha:
                 self.bad(node, "int/rat arithmetic inside a Scalar kernel")
             k = "rat"
-        if arith and k == "nat":
+        if k == "nat" and (op == "-" or any(v.kind == "lit" and v.q < 0 for v in (a, b))):
             k = "int"  # Python ints are unbounded: never truncated subtraction
         return k
 
@@ -381,14 +506,22 @@ class _Tr:
             return v.lean
         if v.kind == "bool":
             return "(%s = true)" % v.lean
-        self.bad(node, "truth value of a %s expression (only comparisons/booleans are whitelisted)" % v.kind)
+        if v.kind in ("int", "nat"):
+            return "(%s ≠ 0)" % v.lean  # Python truth value of an integer
+        self.bad(node, "truth value of a %s expression (only comparisons/booleans/integers are whitelisted)" % v.kind)
 
     def as_bool(self, v, node):
         if v.kind == "bool":
             return v.lean
-        if v.kind == "prop":
-            return "(decide %s)" % v.lean
+        if v.kind in ("prop", "int", "nat"):
+            return "(decide %s)" % self.as_prop(v, node)
         self.bad(node, "expected a boolean, got %s" % v.kind)
+
+    def truth(self, v, node):
+        """partial evaluation of a truth value: literal numbers are constants"""
+        if v.kind == "lit":
+            return _const(v.q != 0)
+        return v
 
     def value(self, v, node):
         """Lean text of `v` where a first-class value is needed (let, return, tuple item)."""
@@ -411,29 +544,37 @@ class _Tr:
 
     # ---- expressions
 
-    def expr(self, node, env):
-        if isinstance(node, (ast.Attribute, ast.Call, ast.Subscript, ast.Name)):
-            text = self.canon(node, env)
-            if text in self.opt:
-                st = env.none.get(text)
-                o = self.opt[text]
-                if st is False and text in o.payload:
+    def lookup(self, text, node, env):
+        """mapped expressions (after assignments/effects on this path), optionals, constants"""
+        if text in env.over:
+            return env.over[text]
+        if text in self.opt:
+            st = env.none.get(text)
+            o = self.opt[text]
+            if st is False and text in o.payload:
+                l, k = o.payload[text]
+                return Val(l, k)
+            if st is False:
+                self.bad(node, "optional object used as a value")
+            self.bad(node, "value of `%s` used where it may be None" % text)
+        for o in self.spec.optionals:
+            if text in o.payload:
+                if env.none.get(o.py) is False:
                     l, k = o.payload[text]
                     return Val(l, k)
-                if st is False:
-                    self.bad(node, "optional object used as a value")
-                self.bad(node, "value of `%s` used where it may be None" % text)
-            for o in self.spec.optionals:
-                if text in o.payload:
-                    if env.none.get(o.py) is False:
-                        l, k = o.payload[text]
-                        return Val(l, k)
-                    self.bad(node, "`%s` evaluated where `%s` may be None" % (text, o.py))
-            if text in env.exprs:
-                l, k = env.exprs[text]
-                if k in ("true", "false"):
-                    return _const(k == "true")  # declared constant on this kernel's domain (see the registry note)
-                return Val(l, k) if k != "vec" else self.vecparam(l, env, "rat" if not self.alpha else "alpha")
+                self.bad(node, "`%s` evaluated where `%s` may be None" % (text, o.py))
+        if text in env.exprs:
+            l, k = env.exprs[text]
+            if k in ("true", "false"):
+                return _const(k == "true")  # declared constant on this kernel's domain (see the registry note)
+            return Val(l, k) if k != "vec" else self.vecparam(l, env, "rat" if not self.alpha else "alpha")
+        return None
+
+    def expr(self, node, env):
+        if not isinstance(node, (ast.Constant, ast.Tuple, ast.List)):
+            r = self.lookup(self.canon(node, env), node, env)
+            if r is not None:
+                return r
         f = getattr(self, "e_" + type(node).__name__, None)
         if f is None:
             self.bad(node, "expression of type %s is not in the whitelist" % type(node).__name__)
@@ -462,13 +603,24 @@ class _Tr:
             return _const(c)
         if isinstance(c, int):
             return _lit(c, False)
+        if isinstance(c, str):
+            return Val(None, "msg")  # message text: only usable in warnings / exceptions
         if isinstance(c, float):
             if c != c or c in (float("inf"), float("-inf")):
                 self.bad(node, "non-finite float literal")
-            src = ast.get_source_segment(self.src_text, node) if getattr(self, "src_text", None) else None
+            if self.spec.float_literals == "binary64":
+                return _lit(Fraction(c), True)  # the exact value of the double
+            src = None
+            if self.src_text and getattr(node, "lineno", None) and getattr(node, "end_col_offset", None) is not None:
+                try:
+                    src = ast.get_source_segment(self.src_text, node)
+                except Exception:
+                    src = None
             try:
-                q = Fraction(src) if src else Fraction(repr(c))  # the decimal as written
-            except (ValueError, TypeError):
+                q = Fraction(src.replace("_", "")) if src else Fraction(repr(c))  # the decimal as written
+            except (ValueError, TypeError, AttributeError):
+                q = Fraction(repr(c))
+            if float(q) != c:
                 q = Fraction(repr(c))
             return _lit(q, True)
         self.bad(node, "constant of type %s" % type(c).__name__)
@@ -476,9 +628,7 @@ class _Tr:
     def e_Attribute(self, node, env):
         text = ast.unparse(node)
         if text in ("np.pi", "numpy.pi", "math.pi"):
-            if not self.alpha:
-                self.bad(node, "pi outside a Scalar kernel")
-            return Val("Scalar.pi", "alpha")
+            return Val(self.field("pi", node), "alpha")
         self.bad(node, "attribute `%s` is not in this kernel's attribute map" % self.canon(node, env))
 
     def e_Subscript(self, node, env):
@@ -487,6 +637,7 @@ class _Tr:
     def e_UnaryOp(self, node, env):
         v = self.expr(node.operand, env)
         if isinstance(node.op, ast.Not):
+            v = self.truth(v, node)
             if v.const is not None:
                 return _const(not v.const)
             return Val("(¬ %s)" % self.as_prop(v, node), "prop")
@@ -532,29 +683,71 @@ class _Tr:
             if a.kind == "lit" and not a.isfloat and a.q.denominator == 1 and a.q > 0:
                 if b.kind == "lit" and not b.isfloat and b.q.denominator == 1 and 0 <= b.q <= 64:
                     return _lit(a.q ** int(b.q), False)
-                if b.kind in ("int", "nat"):
+                if b.kind == "nat":
+                    return Val("((%d : Nat) ^ %s)" % (a.q.numerator, b.lean), "nat")
+                if b.kind == "int":
                     # Python: int ** non-negative int (a negative exponent would give a float; Int.toNat clamps it)
-                    e = b.lean if b.kind == "nat" else "(%s).toNat" % b.lean
-                    return Val("((%d : Int) ^ %s)" % (a.q.numerator, e), "int")
-            self.bad(node, "`**` other than `x ** 2` or `<positive int literal> ** <int expression>`")
-        sym = {ast.Add: "+", ast.Sub: "-", ast.Mult: "*", ast.Div: "/", ast.FloorDiv: "//"}.get(type(op))
+                    return Val("((%d : Int) ^ (%s).toNat)" % (a.q.numerator, b.lean), "int")
+            if a.kind == "lit" and a.q == Fraction(1, 2) and self.alpha and b.kind in ("alpha", "lit"):
+                return Val("(%s %s)" % (self.field("powHalf", node), self.num(b, "alpha", node)), "alpha")
+            self.bad(node, "`**` other than `x ** 2`, `<positive int literal> ** <int expression>` or `0.5 ** x` "
+                           "(with a `powHalf` scalar field)")
+        sym = {ast.Add: "+", ast.Sub: "-", ast.Mult: "*", ast.Div: "/", ast.FloorDiv: "//", ast.Mod: "%",
+               ast.BitAnd: "&", ast.BitOr: "|", ast.LShift: "<<", ast.RShift: ">>"}.get(type(op))
         if sym is None:
             self.bad(node, "binary operator %s" % type(op).__name__)
-        k = self.join(a, b, node)
+        if sym in ("&", "|") and a.kind in ("bool", "prop") and b.kind in ("bool", "prop"):
+            # `&` / `|` of booleans (numpy's element-wise and/or): both operands are evaluated
+            a, b = self.truth(a, node), self.truth(b, node)
+            if a.const is not None or b.const is not None:
+                c, o = (a, b) if a.const is not None else (b, a)
+                if sym == "&":
+                    return o if c.const else _const(False)
+                return _const(True) if c.const else o
+            return Val("(%s %s %s)" % (self.as_prop(a, node), "∧" if sym == "&" else "∨", self.as_prop(b, node)), "prop")
+        k = self.join(a, b, node, op=sym)
+        if k == "lit" and self.alpha and (a.isfloat or b.isfloat) and sym in ("+", "-", "*", "/"):
+            k = "alpha"  # float constants of a Scalar kernel are not folded: the scalar class has no algebraic laws
         if k == "lit":
+            fl = a.isfloat or b.isfloat
             if sym == "+":
-                return _lit(a.q + b.q, a.isfloat or b.isfloat)
+                return _lit(a.q + b.q, fl)
             if sym == "-":
-                return _lit(a.q - b.q, a.isfloat or b.isfloat)
+                return _lit(a.q - b.q, fl)
             if sym == "*":
-                return _lit(a.q * b.q, a.isfloat or b.isfloat)
+                return _lit(a.q * b.q, fl)
             if sym == "/" and b.q != 0:
                 return _lit(a.q / b.q, True)
+            if not fl and a.q.denominator == 1 and b.q.denominator == 1:
+                x, y = int(a.q), int(b.q)
+                try:
+                    if sym == "//" and y != 0:
+                        return _lit(x // y, False)
+                    if sym == "%" and y != 0:
+                        return _lit(x % y, False)
+                    if sym == "&" and x >= 0 and y >= 0:
+                        return _lit(x & y, False)
+                    if sym == "|" and x >= 0 and y >= 0:
+                        return _lit(x | y, False)
+                    if sym == "<<" and 0 <= y <= 128 and x >= 0:
+                        return _lit(x << y, False)
+                    if sym == ">>" and y >= 0 and x >= 0:
+                        return _lit(x >> y, False)
+                except Exception:
+                    pass
             self.bad(node, "constant expression")
-        if sym == "//":
+        if sym in ("&", "|", "<<", ">>"):
+            if k != "nat":
+                self.bad(node, "bit operation `%s` on a possibly negative integer (declare the operands natural)" % sym)
+            lsym = {"&": "&&&", "|": "|||", "<<": "<<<", ">>": ">>>"}[sym]
+            return Val("(%s %s %s)" % (self.num(a, "nat", node), lsym, self.num(b, "nat", node)), "nat")
+        if sym in ("//", "%"):
+            if k == "nat":
+                return Val("(%s %s %s)" % (self.num(a, "nat", node), "/" if sym == "//" else "%", self.num(b, "nat", node)), "nat")
             if k != "int":
-                self.bad(node, "`//` on non-integers")
-            return Val("(Int.fdiv %s %s)" % (self.num(a, "int", node), self.num(b, "int", node)), "int")
+                self.bad(node, "`%s` on non-integers" % sym)
+            fn = "Int.fdiv" if sym == "//" else "Int.fmod"  # Python: floor division, remainder with the divisor's sign
+            return Val("(%s %s %s)" % (fn, self.num(a, "int", node), self.num(b, "int", node)), "int")
         if sym == "/" and k in ("int", "nat"):
             # Python true division of ints gives a float: exact rational here
             return Val("(%s / %s)" % (self.num(a, "rat", node), self.num(b, "rat", node)), "rat")
@@ -564,7 +757,7 @@ class _Tr:
         is_and = isinstance(node.op, ast.And)
         parts = []
         for vnode in node.values:
-            v = self.expr(vnode, env)  # evaluated left to right; later operands only if not short-circuited
+            v = self.truth(self.expr(vnode, env), node)  # left to right; later operands only if not short-circuited
             if v.const is not None:
                 if v.const == (not is_and):
                     # `False and ...` / `True or ...`: the rest is not evaluated
@@ -577,9 +770,10 @@ class _Tr:
         if not parts:
             return _const(is_and)
         if parts[-1].const is not None:
-            # e.g. `a and False`: a is still evaluated (pure) -> constant only if nothing precedes
+            # `a and False` / `a or True` with boolean a: a is evaluated (it is pure and was translated above, so it is
+            # inside the whitelist) and the result is the constant
             tail = parts.pop()
-            if not parts:
+            if all(p.kind in ("bool", "prop") for p in parts):
                 return _const(tail.const)
             parts.append(Val("False" if not tail.const else "True", "prop"))
         if len(parts) == 1:
@@ -587,6 +781,8 @@ class _Tr:
             if v.kind not in ("bool", "prop"):
                 self.bad(node, "`and`/`or` returning a non-boolean operand")
             return v
+        if any(p.kind not in ("bool", "prop", "int", "nat") for p in parts):
+            self.bad(node, "`and`/`or` on non-boolean operands")
         sym = " ∧ " if is_and else " ∨ "
         return Val("(" + sym.join(self.as_prop(p, node) for p in parts) + ")", "prop")
 
@@ -598,7 +794,7 @@ class _Tr:
         if isinstance(op, (ast.Eq, ast.NotEq)) and a.kind in ("bool", "prop") and b.kind in ("bool", "prop"):
             s = "(%s = %s)" % (self.as_bool(a, node), self.as_bool(b, node))
             return Val(s if isinstance(op, ast.Eq) else "(¬ %s)" % s, "prop")
-        k = self.join(a, b, node, arith=False)
+        k = self.join(a, b, node, op="cmp")
         if k == "lit":
             r = {ast.Lt: a.q < b.q, ast.LtE: a.q <= b.q, ast.Gt: a.q > b.q, ast.GtE: a.q >= b.q, ast.Eq: a.q == b.q,
                  ast.NotEq: a.q != b.q}.get(type(op))
@@ -617,8 +813,9 @@ class _Tr:
             return Val("(%s ≤ %s)" % (y, x), "prop")
         if isinstance(op, (ast.Eq, ast.NotEq)):
             if k == "alpha":
-                # IEEE `==` of the Scalar class (Model/GainCalc.lean `eqS`)
-                v = Val("(Earverif.GainCalc.eqS %s %s)" % (x, y), "bool")
+                if not self.sc["eq"]:
+                    self.bad(node, "`==` on the abstract scalar: the target model's class has no IEEE equality")
+                v = Val("(%s %s %s)" % (self.sc["eq"], x, y), "bool")
                 return v if isinstance(op, ast.Eq) else Val("(¬ %s)" % self.as_prop(v, node), "prop")
             s = "(%s = %s)" % (x, y)
             return Val(s if isinstance(op, ast.Eq) else "(¬ %s)" % s, "prop")
@@ -658,7 +855,7 @@ class _Tr:
         return Val("(" + " ∧ ".join(self.as_prop(p, node) for p in live) + ")", "prop")
 
     def e_IfExp(self, node, env):
-        t = self.expr(node.test, env)
+        t = self.truth(self.expr(node.test, env), node)
         if t.const is not None:
             return self.expr(node.body if t.const else node.orelse, env)
         a, b = self.expr(node.body, env), self.expr(node.orelse, env)
@@ -667,7 +864,7 @@ class _Tr:
 
     def same_kind(self, a, b, node):
         if a.kind in NUM and b.kind in NUM:
-            k = self.join(a, b, node, arith=False)
+            k = self.join(a, b, node, op="sel")
             if k == "lit":
                 k = "alpha" if self.alpha else ("rat" if any(v.isfloat or v.q.denominator != 1 for v in (a, b)) else "int")
             return k
@@ -687,8 +884,46 @@ class _Tr:
     def e_Tuple(self, node, env):
         return Val(None, "tuple", items=[self.expr(e, env) for e in node.elts])
 
+    def inline_call(self, node, env, qualname):
+        """`helper(args)` where helper is `[docstring] asserts* return <expr>` in the same file."""
+        if self.tree is None:
+            self.bad(node, "internal: no module tree for inlining")
+        callee = find_function(self.tree, qualname)
+        a = callee.args
+        if a.vararg or a.kwarg or a.kwonlyargs or node.keywords or len(node.args) != len(a.args):
+            self.bad(node, "inlined call with other than plain positional arguments")
+        sub = {p.arg: arg for p, arg in zip(a.args, node.args)}
+
+        class Sub(ast.NodeTransformer):
+            def visit_Name(self, n):
+                return copy.deepcopy(sub[n.id]) if n.id in sub else n
+
+        result = None
+        for s in callee.body:
+            if isinstance(s, ast.Expr) and isinstance(s.value, ast.Constant) and isinstance(s.value.value, str):
+                continue
+            s2 = Sub().visit(copy.deepcopy(s))
+            ast.fix_missing_locations(s2)
+            if isinstance(s2, ast.Assert):
+                t = self.truth(self.expr(s2.test, env), s2)
+                if t.const is not True:
+                    self.bad(s, "assert in inlined `%s` that is not constant-true on this kernel's domain" % qualname)
+                continue
+            if isinstance(s2, ast.Return) and s2.value is not None and result is None:
+                result = self.expr(s2.value, env)
+                continue
+            self.bad(s, "inlined helper `%s` is not of the form `asserts; return <expr>`" % qualname)
+        if result is None:
+            self.bad(node, "inlined helper `%s` returns nothing" % qualname)
+        return result
+
     def e_Call(self, node, env):
         fn = ast.unparse(node.func)
+        if fn in self.spec.inline:
+            return self.inline_call(node, env, self.spec.inline[fn])
+        if fn == "dict" or (isinstance(node.func, ast.Attribute) and node.func.attr == "format"
+                            and isinstance(node.func.value, ast.Constant) and isinstance(node.func.value.value, str)):
+            return Val(None, "msg")  # message arguments (dict(...), "...".format(...)): not part of the value
         if node.keywords and fn not in self.spec.ctors:
             self.bad(node, "keyword arguments")
         n = len(node.args)
@@ -705,6 +940,16 @@ class _Tr:
             return Val(t.format(*[self.value(a, node) for a in args]), "ctor")
         if fn in ("np.array", "numpy.array") and n == 1 and isinstance(node.args[0], ast.List) and not node.args[0].elts:
             return Val("[]", "list0")
+        if fn in ("np.interp", "numpy.interp") and n == 3:
+            if not (self.alpha and self.sc["interp"]):
+                self.bad(node, "np.interp: the target model has no `interp`")
+            x = self.expr(node.args[0], env)
+            lists = []
+            for ln in node.args[1:]:
+                if not isinstance(ln, ast.List):
+                    self.bad(node, "np.interp with anything but list displays for xp/fp")
+                lists.append("[" + ", ".join(self.num(self.expr(e, env), "alpha", node) for e in ln.elts) + "]")
+            return Val("(%s %s %s %s)" % (self.sc["interp"], self.num(x, "alpha", node), lists[0], lists[1]), "alpha")
         args = [self.expr(a, env) for a in node.args]
         if fn in ("min", "max") and n == 2:
             a, b = args
@@ -713,10 +958,12 @@ class _Tr:
                 self.bad(node, "%s of non-numeric values" % fn)
             x, y = self.num(a, k, node), self.num(b, k, node)
             if k == "alpha":
+                if fn in self.sc["fields"]:
+                    return Val("(%s.%s %s %s)" % (self.S, fn, x, y), k)
                 # Python: max(a, b) is b iff a < b; min(a, b) is b iff b < a (no Max/Min instance on Scalar)
                 return Val("(if %s < %s then %s else %s)" % ((x, y, y, x) if fn == "max" else (y, x, y, x)), k)
             return Val("(%s %s %s)" % (fn, x, y), k)
-        if fn == "abs" and n == 1:
+        if fn in ("abs", "np.abs", "numpy.abs", "math.fabs") and n == 1:
             a = args[0]
             if a.kind == "lit":
                 return _lit(abs(a.q), a.isfloat)
@@ -725,14 +972,44 @@ class _Tr:
             k = "int" if a.kind == "nat" else a.kind
             x = self.num(a, k, node)
             return Val("(if %s < %s then -%s else %s)" % (x, self.num(_lit(0, False), k, node), x, x), k)
-        if fn in ("np.sqrt", "numpy.sqrt", "math.sqrt", "np.cos", "np.sin", "math.cos", "math.sin") and n == 1:
-            if not self.alpha:
-                self.bad(node, "`%s` needs a Scalar kernel (abstract sqrt/cos/sin)" % fn)
+        if fn in ("np.sign", "numpy.sign") and n == 1:
             a = args[0]
-            f = "Scalar." + fn.split(".")[1]
+            if a.kind != "alpha":
+                self.bad(node, "np.sign outside a Scalar kernel")
+            z = self.ofrat(Fraction(0))
+            return Val("(if %s < %s then %s else if %s < %s then %s else %s)"
+                       % (a.lean, z, self.ofrat(Fraction(-1)), z, a.lean, self.ofrat(Fraction(1)), z), "alpha")
+        if fn in ("np.clip", "numpy.clip") and n == 3:
+            ks = [v.kind for v in args if v.kind != "lit"]
+            k = "alpha" if self.alpha else ("rat" if "rat" in ks or any(v.kind == "lit" and v.isfloat for v in args) else "int")
+            xs, ls, hs = (self.num(v, k, node) for v in args)
+            return Val("(if %s < %s then %s else if %s < %s then %s else %s)" % (xs, ls, ls, hs, xs, hs, xs), k)
+        if fn in ("np.hypot", "numpy.hypot", "math.hypot") and n == 2:
+            x, y = (self.num(v, "alpha", node) for v in args)
+            return Val("(%s ((%s * %s) + (%s * %s)))" % (self.field("sqrt", node), x, x, y, y), "alpha")
+        unary = {"sqrt": "sqrt", "cos": "cos", "sin": "sin", "tan": "tan", "arctan": "atan", "atan": "atan",
+                 "arcsin": "asin", "asin": "asin", "arccos": "acos", "acos": "acos"}
+        mod, _, base = fn.rpartition(".")
+        if mod in ("np", "numpy", "math") and base in unary and n == 1:
+            a = args[0]
+            f = self.field(unary[base], node)
             if a.kind == "vec":
                 return self.vecmap(a, lambda x: Val("(%s %s)" % (f, self.num(x, "alpha", node)), "alpha"))
             return Val("(%s %s)" % (f, self.num(a, "alpha", node)), "alpha")
+        if mod in ("np", "numpy", "math") and base in ("arctan2", "atan2") and n == 2:
+            return Val("(%s %s %s)" % (self.field("atan2", node), self.num(args[0], "alpha", node),
+                                       self.num(args[1], "alpha", node)), "alpha")
+        if fn in ("np.power", "numpy.power") and n == 2:
+            return Val("(%s %s %s)" % (self.field("pow", node), self.num(args[0], "alpha", node),
+                                       self.num(args[1], "alpha", node)), "alpha")
+        if mod in ("np", "numpy", "math") and base in ("radians", "degrees") and n == 1:
+            # numpy's definitions: x * (pi / 180), x * (180 / pi)
+            pi = self.field("pi", node)
+            c = "(%s / %s)" % (pi, self.ofrat(Fraction(180))) if base == "radians" else "(%s / %s)" % (self.ofrat(Fraction(180)), pi)
+            a = args[0]
+            if a.kind == "vec":
+                return self.vecmap(a, lambda x: Val("(%s * %s)" % (self.num(x, "alpha", node), c), "alpha"))
+            return Val("(%s * %s)" % (self.num(a, "alpha", node), c), "alpha")
         if fn in ("math.ceil", "np.ceil", "numpy.ceil") and n == 1:
             a = args[0]
             if a.kind in ("int", "nat"):
@@ -754,6 +1031,15 @@ class _Tr:
             if a.kind in ("int", "nat") or (a.kind == "lit" and not a.isfloat):
                 return a
             self.bad(node, "int() of a non-integer (%s) value (use math.trunc/ceil)" % a.kind)
+        if fn == "bool" and n == 1:
+            a = self.truth(args[0], node)
+            if a.const is not None:
+                return a
+            return Val(self.as_bool(a, node), "bool")
+        if fn == "divmod" and n == 2:
+            fd = ast.BinOp(left=node.args[0], op=ast.FloorDiv(), right=node.args[1])
+            md = ast.BinOp(left=node.args[0], op=ast.Mod(), right=node.args[1])
+            return Val(None, "tuple", items=[self.binop(fd.op, args[0], args[1], node), self.binop(md.op, args[0], args[1], node)])
         if fn == "float" and n == 1:
             a = args[0]  # floats are exact here: float(x) is x as a rational
             if a.kind == "lit":
@@ -803,11 +1089,32 @@ class _Tr:
             s = self.value(v, node)
         return "some %s" % s if self.spec.ret_mode == "option" else s
 
+    def output_val(self, text, env):
+        node = ast.parse(text, mode="eval").body
+        c = self.canon(node, env)
+        if c in self.opt and c not in env.over:
+            if env.none.get(c):
+                return Val("none", "opt")
+            o = self.opt[c]
+            if c not in o.payload:
+                raise Refuse("output `%s`: optional object" % text)
+            return Val("(some %s)" % o.payload[c][0], "opt")
+        if c in self.opt:
+            return Val("(some %s)" % self.value(env.over[c], node), "opt")
+        return self.expr(node, env)
+
+    def fall_off(self, env, ind):
+        if self.outputs is None:
+            raise Refuse("a path through `%s` ends without returning a value" % self.spec.qualname)
+        vals = [self.output_val(t, env) for t in self.outputs]
+        v = vals[0] if len(vals) == 1 else Val(None, "tuple", items=vals)
+        return "  " * ind + self.ret(v, None)
+
     def stmts(self, body, env, ind):
         """Lean term for the statement list `body` (the rest of the function on this path)."""
         pad = "  " * ind
         if not body:
-            raise Refuse("a path through `%s` ends without returning a value" % self.spec.qualname)
+            return self.fall_off(env, ind)
         s, rest = body[0], body[1:]
         if isinstance(s, ast.Expr):
             if isinstance(s.value, ast.Constant) and isinstance(s.value.value, str):
@@ -816,17 +1123,27 @@ class _Tr:
                 fn = self.canon(s.value.func, env)
                 if fn in NOOP_CALLS:
                     return self.stmts(rest, env, ind)  # warnings are not part of the value
-                if self.spec.effects.get(fn) == "result":
+                eff = self.spec.effects.get(fn)
+                if eff == "result":
                     if len(s.value.args) != 1 or s.value.keywords:
                         self.bad(s, "effect call with other than one argument")
                     if rest:
                         self.bad(rest[0], "statement after the effect `%s(...)` that is the kernel's result" % fn)
                     return pad + self.ret(self.expr(s.value.args[0], env), s)
+                if isinstance(eff, dict):
+                    return self.state_effect(s, fn, eff, rest, env, ind)
             self.bad(s, "expression statement")
         if isinstance(s, ast.Pass):
             return self.stmts(rest, env, ind)
+        if isinstance(s, ast.Assert):
+            t = self.truth(self.expr(s.test, env), s)
+            if t.const is True:
+                return self.stmts(rest, env, ind)
+            self.bad(s, "assert whose test is not constant-true on this kernel's domain")
         if isinstance(s, ast.Return):
             if s.value is None:
+                if self.outputs is not None:
+                    return self.fall_off(env, ind)
                 self.bad(s, "bare return")
             return pad + self.ret(self.expr(s.value, env), s)
         if isinstance(s, ast.Raise):
@@ -836,15 +1153,16 @@ class _Tr:
         if isinstance(s, ast.Assign):
             return self.assign(s, rest, env, ind)
         if isinstance(s, ast.AugAssign):
-            if not isinstance(s.target, ast.Name):
-                self.bad(s, "augmented assignment to a non-name")
-            syn = ast.Assign(targets=[ast.Name(id=s.target.id, ctx=ast.Store())],
-                             value=ast.BinOp(left=ast.Name(id=s.target.id, ctx=ast.Load()), op=s.op, right=s.value))
+            tl = copy.deepcopy(s.target)
+            for m in ast.walk(tl):
+                if hasattr(m, "ctx"):
+                    m.ctx = ast.Load()
+            syn = ast.Assign(targets=[s.target], value=ast.BinOp(left=tl, op=s.op, right=s.value))
             ast.copy_location(syn, s)
             ast.fix_missing_locations(syn)
             return self.assign(syn, rest, env, ind)
         if isinstance(s, ast.If):
-            t = self.expr(s.test, env)
+            t = self.truth(self.expr(s.test, env), s)
             if t.const is not None:
                 return self.stmts((s.body if t.const else s.orelse) + rest, env, ind)
             if self.only_noops(s.body, env) and self.only_noops(s.orelse, env):
@@ -852,6 +1170,8 @@ class _Tr:
             a = self.stmts(s.body + rest, env.child(), ind + 1)
             b = self.stmts(s.orelse + rest, env.child(), ind + 1)
             return "%sif %s then\n%s\n%selse\n%s" % (pad, self.as_prop(t, s), a, pad, b)
+        if isinstance(s, ast.While):
+            return self.while_(s, rest, env, ind)
         self.bad(s, "statement of type %s is not in the whitelist" % type(s).__name__)
 
     def only_noops(self, body, env):
@@ -863,10 +1183,176 @@ class _Tr:
             return False
         return True
 
+    def state_effect(self, s, fn, eff, rest, env, ind):
+        """`f(args)` as a statement updates what the mapped expression `eff['state']` denotes."""
+        pad = "  " * ind
+        call = s.value
+        if call.keywords or not call.args:
+            self.bad(s, "effect call with keyword/no arguments")
+        key = (len(call.args),)
+        if len(call.args) == 2:
+            a2 = call.args[1]
+            if not (isinstance(a2, ast.Constant) and isinstance(a2.value, int)):
+                self.bad(s, "effect call whose second argument is not an integer literal")
+            key = (2, a2.value)
+        form = eff["forms"].get(key)
+        if form is None:
+            self.bad(s, "effect call form %r of `%s` is not mapped" % (key, fn))
+        arg = self.expr(call.args[0], env)
+        state = eff["state"]
+        old = self.lookup(state, s, env)
+        if old is None:
+            self.bad(s, "internal: effect state `%s` is not a mapped expression" % state)
+        add = ast.Add()
+        if form == "arg":
+            new = arg
+        elif form == "old+arg":
+            new = self.binop(add, old, arg, s)
+        elif isinstance(form, tuple) and form[0] == "expr+arg":
+            new = self.binop(add, Val(form[1], form[2]), arg, s)
+        else:
+            self.bad(s, "internal: unknown effect form %r" % (form,))
+        if new.kind == "lit":
+            env = env.child()
+            env.over[state] = new
+            return self.stmts(rest, env, ind)
+        name = self.fresh(env, "st")
+        env = env.child()
+        env.over[state] = Val(name, new.kind)
+        return "%slet %s := %s;\n" % (pad, name, self.value(new, s)) + self.stmts(rest, env, ind)
+
+    def while_(self, s, rest, env, ind):
+        """`while c: <assignments to names>` -> auxiliary def by structural recursion on fuel."""
+        pad = "  " * ind
+        if self.spec.fuel is None:
+            self.bad(s, "`while` loop in a kernel without a fuel bound")
+        if s.orelse:
+            self.bad(s, "while/else")
+        state = []
+        for b in s.body:
+            if isinstance(b, ast.Assign) and all(isinstance(t, ast.Name) for t in b.targets):
+                for t in b.targets:
+                    if t.id not in state:
+                        state.append(t.id)
+            elif isinstance(b, ast.AugAssign) and isinstance(b.target, ast.Name):
+                if b.target.id not in state:
+                    state.append(b.target.id)
+            else:
+                self.bad(b, "statement in a `while` body other than an assignment to a name")
+        if not state:
+            self.bad(s, "`while` loop that assigns nothing")
+        loads = _loads(s.test)
+        for b in s.body:
+            loads |= _loads(b)
+        # loop variables and the free names, all of which must be plain Lean identifiers of known numeric/bool kind
+        def ident(name):
+            if name not in env.names:
+                self.bad(s, "name `%s` used in a `while` loop is not a local or parameter" % name)
+            v = env.names[name]
+            v = Val(*v) if isinstance(v, tuple) else v
+            if v.kind == "lit":
+                return v
+            if v.kind not in LEAN_TYPE or v.lean is None or not v.lean.replace("_", "a").replace("'", "a").isalnum():
+                self.bad(s, "name `%s` (kind %s) cannot be passed to a loop" % (name, v.kind))
+            return v
+        for n in state:
+            if ident(n).kind == "lit":
+                self.bad(s, "loop variable `%s` starts as a literal: bind it to a parameter kind first" % n)
+        free = sorted(n for n in loads if n not in state and n in env.names and ident(n).kind != "lit")
+        unknown = sorted(n for n in loads if n not in env.names and n not in state
+                         and n not in ("np", "numpy", "math", "abs", "min", "max", "float", "int", "bool"))
+        if unknown:
+            self.bad(s, "names %s in a `while` loop are not locals/parameters" % unknown)
+        self.nloops += 1
+        aux = "%s_loop%d" % (self.spec.lean_name, self.nloops)
+        # environment of the auxiliary def: only identifiers
+        aenv = _Env(self.spec)
+        aenv.names = {n: env.names[n] for n in loads if n in env.names and ident(n).kind == "lit"}
+        aenv.exprs, aenv.fresh = {}, env.fresh
+        kinds = {}
+        for n in free + state:
+            v = ident(n)
+            kinds[n] = v.kind
+            aenv.names[n] = Val(mangle(n), v.kind)
+        saved_opt = self.opt
+        self.opt = {}
+        try:
+            cond = self.truth(self.expr(s.test, aenv), s)
+            if cond.const is not None:
+                self.bad(s, "`while` with a constant condition")
+            benv = aenv.child()
+            lets = ""
+            for b in s.body:
+                if isinstance(b, ast.AugAssign):
+                    val = self.binop(b.op, self.expr(ast.Name(id=b.target.id, ctx=ast.Load()), benv), self.expr(b.value, benv), b)
+                    tg = [b.target.id]
+                else:
+                    val = self.expr(b.value, benv)
+                    tg = [t.id for t in b.targets]
+                for t in tg:
+                    lets += "      let %s := %s;\n" % (mangle(t), self.at(val, kinds[t], b))
+                    benv.names[t] = Val(mangle(t), kinds[t])
+        finally:
+            self.opt = saved_opt
+        sv = [mangle(n) for n in state]
+        tup = sv[0] if len(sv) == 1 else "(" + ", ".join(sv) + ")"
+        rty = LEAN_TYPE[kinds[state[0]]] if len(state) == 1 else " × ".join(LEAN_TYPE[kinds[n]] for n in state)
+        head = "def %s %s%s: Nat → %s → %s\n" % (
+            aux, ("{α : Type} [%s α] " % self.S) if self.alpha else "",
+            "".join("(%s : %s) " % (mangle(n), LEAN_TYPE[kinds[n]]) for n in free),
+            " → ".join(LEAN_TYPE[kinds[n]] for n in state), rty)
+        call = "%s %s" % (aux, "".join(mangle(n) + " " for n in free))
+        text = head
+        text += "  | 0, %s => %s\n" % (", ".join(sv), tup)
+        text += "  | fuel + 1, %s =>\n    if %s then\n%s      %sfuel %s\n    else %s\n" % (
+            ", ".join(sv), self.as_prop(cond, s), lets, call, " ".join(sv), tup)
+        self.aux.append(text)
+        fuel = self.spec.fuel
+        if isinstance(fuel, (list, tuple)):
+            if self.nloops > len(fuel):
+                self.bad(s, "no fuel term for loop %d" % self.nloops)
+            fuel = fuel[self.nloops - 1]
+        init = " ".join(ident(n).lean for n in state)
+        env = env.child()
+        out = ""
+        if len(state) == 1:
+            out += "%slet %s := %s(%s) %s;\n" % (pad, sv[0], "%s %s" % (aux, "".join(ident(n).lean + " " for n in free)), fuel, init)
+            env.names[state[0]] = Val(sv[0], kinds[state[0]])
+        else:
+            tmp = self.fresh(env, "loop")
+            out += "%slet %s := %s(%s) %s;\n" % (pad, tmp, "%s %s" % (aux, "".join(ident(n).lean + " " for n in free)), fuel, init)
+            for i, n in enumerate(state):
+                proj = ".2" * i + (".1" if i < len(state) - 1 else "")
+                out += "%slet %s := %s%s;\n" % (pad, sv[i], tmp, proj)
+                env.names[n] = Val(sv[i], kinds[n])
+        return out + self.stmts(rest, env, ind)
+
+    def assign_mapped(self, text, t, v, s, rest, env, ind):
+        """assignment to a mapped attribute / designated optional: it denotes the new value from here on"""
+        pad = "  " * ind
+        env = env.child()
+        if text in self.opt:
+            if isinstance(s.value, ast.Constant) and s.value.value is None:
+                env.none[text] = True
+                env.over.pop(text, None)
+                return self.stmts(rest, env, ind)
+            env.none[text] = False
+        if v.kind == "lit" or v.const is not None:
+            env.over[text] = v
+            return self.stmts(rest, env, ind)
+        if v.kind not in NUM + ("bool", "prop"):
+            self.bad(s, "assignment of a %s value to a mapped expression" % v.kind)
+        stem = t.attr if isinstance(t, ast.Attribute) else "m"
+        name = self.fresh(env, mangle(stem) + "_")
+        kind = "bool" if v.kind == "prop" else v.kind
+        env.over[text] = Val(name, kind)
+        return "%slet %s := %s;\n" % (pad, name, self.value(v, s)) + self.stmts(rest, env, ind)
+
     def assign(self, s, rest, env, ind):
         pad = "  " * ind
         # element-wise clip: v[v <cmp> c] = c'
-        if len(s.targets) == 1 and isinstance(s.targets[0], ast.Subscript):
+        if len(s.targets) == 1 and isinstance(s.targets[0], ast.Subscript) \
+                and self.canon(s.targets[0], env) not in env.exprs:
             t = s.targets[0]
             if isinstance(t.value, ast.Name) and isinstance(t.slice, ast.Compare) and len(t.slice.ops) == 1 \
                     and isinstance(t.slice.left, ast.Name) and t.slice.left.id == t.value.id:
@@ -875,7 +1361,7 @@ class _Tr:
                 new = self.expr(s.value, env)
                 if v.kind != "vec" or c.kind not in NUM or new.kind not in NUM:
                     self.bad(s, "masked assignment other than `v[v <cmp> c] = c'` on an array")
-                k = self.join(v.body, new, s, arith=False)
+                k = self.join(v.body, new, s, op="sel")
                 cur = self.num(v.body, k, s)
                 if cur == v.var:
                     tv, pre = cur, ""
@@ -888,13 +1374,47 @@ class _Tr:
                 env.names[t.value.id] = Val(None, "vec", src=v.src, var=v.var, body=body)
                 return self.stmts(rest, env, ind)
             self.bad(s, "assignment to a subscript")
+        # a, b = e1, e2
+        if len(s.targets) == 1 and isinstance(s.targets[0], ast.Tuple):
+            tg = s.targets[0].elts
+            if not (isinstance(s.value, ast.Tuple) and len(s.value.elts) == len(tg) and all(isinstance(t, ast.Name) for t in tg)):
+                self.bad(s, "tuple assignment other than `a, b = e1, e2` to names")
+            vals = [self.expr(e, env) for e in s.value.elts]  # all right-hand sides first, as Python does
+            env = env.child()
+            out = ""
+            tmp = []
+            for t, v in zip(tg, vals):
+                if v.kind in ("vec", "lit", "list0") or v.const is not None:
+                    tmp.append((t.id, v))
+                    continue
+                nm = self.fresh(env, mangle(t.id) + "_")
+                out += "%slet %s := %s;\n" % (pad, nm, self.value(v, s))
+                tmp.append((t.id, Val(nm, "bool" if v.kind == "prop" else v.kind, items=v.items)))
+            for n, v in tmp:
+                if v.kind in ("vec", "lit", "list0") or v.const is not None:
+                    env.names[n] = v
+                else:
+                    out += "%slet %s := %s;\n" % (pad, mangle(n), v.lean)
+                    env.names[n] = Val(mangle(n), v.kind, items=v.items)
+                env.aliases.pop(n, None)
+            return out + self.stmts(rest, env, ind)
+        # assignment to a mapped attribute / optional
+        if len(s.targets) == 1 and isinstance(s.targets[0], (ast.Attribute, ast.Subscript)):
+            t = s.targets[0]
+            text = self.canon(t, env)
+            mapped = text in env.exprs or text in env.over or text in self.opt
+            if not mapped:
+                self.bad(s, "assignment to `%s`, which is not a mapped expression of this kernel" % text)
+            if isinstance(s.value, ast.Constant) and s.value.value is None and text in self.opt:
+                return self.assign_mapped(text, t, None, s, rest, env, ind)
+            return self.assign_mapped(text, t, self.expr(s.value, env), s, rest, env, ind)
         for t in s.targets:
             if not isinstance(t, ast.Name):
                 self.bad(s, "assignment target of type %s" % type(t).__name__)
         # local object alias (e.g. `chunkIndex = self._chunks[b'data']`): substituted, no Lean binding
         text = self.canon(s.value, env)
         if isinstance(s.value, (ast.Attribute, ast.Subscript, ast.Name)) and text not in env.exprs \
-                and text not in self.opt and self.is_object_path(text, env) \
+                and text not in self.opt and text not in env.over and self.is_object_path(text, env) \
                 and not (isinstance(s.value, ast.Name) and s.value.id in env.names):
             env = env.child()
             al = s.value
@@ -906,7 +1426,9 @@ class _Tr:
             return self.stmts(rest, env, ind)
         v = self.expr(s.value, env)
         env = env.child()
-        if v.kind in ("vec", "lit", "list0") or v.const is not None:
+        if v.kind == "lit" and self.alpha and v.isfloat:
+            v = Val(self.num(v, "alpha", s), "alpha")  # a named float constant of a Scalar kernel is a `let`
+        if v.kind in ("vec", "lit", "list0", "msg") or v.const is not None:
             for t in s.targets:  # symbolic: no Lean binding needed
                 env.names[t.id] = v
                 env.aliases.pop(t.id, None)
@@ -944,25 +1466,35 @@ class _Tr:
 
 
 def translate(spec, repo):
-    """Returns (lean def text, sha256 of the function source).  Raises Refuse."""
+    """Returns (lean text: auxiliary defs + the def, sha256 of the function source).  Raises Refuse."""
     import os
 
     path = os.path.join(repo, spec.file)
     try:
-        fn, text, sha = function_source(path, spec.qualname)
+        fn, text, sha, tree = function_source(path, spec.qualname)
     except (OSError, SyntaxError) as e:
         raise Refuse("cannot read/parse %s: %s" % (spec.file, e))
-    tr = _Tr(spec)
-    tr.src_text = open(path, encoding="utf-8").read()
+    tr = _Tr(spec, tree=tree, src_text=open(path, encoding="utf-8").read())
     if fn.args.vararg or fn.args.kwarg or fn.args.kwonlyargs:
         raise Refuse("%s: *args/**kwargs/keyword-only parameters" % spec.qualname)
     body = fn.body
-    if spec.select is not None:
-        body = slice_function(fn, spec.select)
-        if spec.select.get("guard"):
-            if spec.ret_mode != "option":
+    sel = spec.select
+    if sel is not None:
+        if "targets" in sel:
+            body = slice_function(fn, sel)
+            if sel.get("guard") and spec.ret_mode != "option":
                 raise Refuse("internal: a guarded slice needs ret_mode='option'")
+        elif "value_of" in sel:
+            body = select_value_of(fn, sel["value_of"], sel.get("arg_of"))
+        elif "range" in sel:
+            body = select_range(fn, sel["range"][0], sel["range"][1])
+            if spec.outputs is None:
+                raise Refuse("internal: a statement range needs `outputs`")
+        else:
+            raise Refuse("internal: unknown selection %r" % (sel,))
+    if spec.optionals and any(isinstance(n, ast.While) for s in body for n in ast.walk(s)):
+        raise Refuse("`while` loop in a kernel with designated optionals")
     term = tr.body_term(body, 1)
     head = "def %s %s%s : %s :=\n" % (
-        spec.lean_name, "{α : Type} [Scalar α] " if spec.scalar == "alpha" else "", spec.binders, spec.ret)
-    return head + term + "\n", sha
+        spec.lean_name, ("{α : Type} [%s α] " % tr.S) if tr.alpha else "", spec.binders, spec.ret)
+    return "".join(a + "\n" for a in tr.aux) + head + term + "\n", sha
